@@ -268,9 +268,10 @@ Lemma exitance_pi_radiance : forall w T wn vn a g,
 Proof.
   intros w T wn vn a g Hw Hg Hw0. unfold planck_radiance, planck_exitance.
   rewrite (planck_gen_spec _ w T wn vn a g Hw Hg), (planck_gen_spec _ w T wn vn a g Hw Hg).
-  eexists; split; [reflexivity|]. f_equal. unfold in_units. cbn [fmul RF].
-  replace (Q2R (2 # 1) * cpi) with (cpi * Q2R (2 # 1)) by ring.
-  rewrite planck_si_linear, flux_linear.
+  eexists; split; [reflexivity|]. f_equal. unfold in_units.
+  change (@fmul RF (fofq (2 # 1)) cpi) with (Q2R (2 # 1) * cpi).
+  change (@fofq RF (2 # 1)%Q) with (Q2R (2 # 1)).
+  rewrite (Rmult_comm (Q2R (2 # 1)) cpi), planck_si_linear, flux_linear.
   - unfold Rdiv; ring.
   - apply Rmult_integral_contrapositive_currified; auto. apply wf_neq0.
 Qed.
